@@ -371,3 +371,33 @@ CONTRACTS["model:Population.build#links_of_one_parameter"] = dict(
         ("C01.nothing_flows_backwards", "len(S.inlinks) == 0 and len(D.outlinks) == 0 and len(E.outlinks) == 0"),
     ],
     defined_props=["C01", "C03"])
+
+
+# ---- Model._set_exec_order, the junction graph (C04: "through chains of junctions"; C01): the body of the loop over the compartments of a population.  Every junction -- residual
+# ones included -- is a node, and there is an edge to every junction (residual or not) one of its outflows leads to, so that a topological order flushes and balances upstream
+# junctions first; ordinary compartments contribute nothing.  The graph is a ghost that records what is added.
+def _env_jgraph(kind):
+    def make(it):
+        from pyvc.interp import PyObjV, ClassV
+        from pyvc import source
+
+        mm = source.load("model")
+        mk = lambda cls, name: PyObjV(cls, mm, {"name": name, "outlinks": []})
+        comp, plain, junc, resid = mk(kind, "comp"), mk("Compartment", "plain"), mk("JunctionCompartment", "junc"), mk("ResidualJunctionCompartment", "resid")
+        comp.fields["outlinks"] = [PyObjV("Link", mm, {"source": comp, "dest": d}) for d in (resid, plain, junc)]
+        return {"comp": comp, "PLAIN": plain, "JUNC": junc, "RESID": resid, "G": PyObjV("DiGraph", mm, {"NODES": [], "EDGES": []}), "JunctionCompartment": ClassV("JunctionCompartment", mm)}
+
+    return make
+
+
+_jg_stubs = {"G.add_node": (lambda it, n: it.stub_receiver.fields["NODES"].append(n)), "G.add_edge": (lambda it, a, b: it.stub_receiver.fields["EDGES"].append((a, b)))}
+for _kind in ("JunctionCompartment", "ResidualJunctionCompartment"):
+    CONTRACTS["model:Model._set_exec_order#junction_graph_%s" % ("residual_junction" if _kind.startswith("Residual") else "junction")] = dict(
+        schema=schema, fragment={"iter": "pop.comps", "body_contains": "G.add_node(comp)"}, make_env=_env_jgraph(_kind), call_stubs=_jg_stubs,
+        ensures=[("C04+C01.every_junction_is_a_node", "len(G.NODES) == 1 and G.NODES[0] is comp"),
+                 ("C04+C01.there_is_an_edge_to_every_junction_it_flows_into_residual_ones_included", "len(G.EDGES) == 2 and G.EDGES[0][0] is comp and G.EDGES[0][1] is RESID and G.EDGES[1][0] is comp and G.EDGES[1][1] is JUNC")],
+        defined_props=["C04"])
+for _kind in ("Compartment", "TimedCompartment", "SourceCompartment"):
+    CONTRACTS["model:Model._set_exec_order#junction_graph_%s" % _kind] = dict(
+        schema=schema, fragment={"iter": "pop.comps", "body_contains": "G.add_node(comp)"}, make_env=_env_jgraph(_kind), call_stubs=_jg_stubs,
+        ensures=[("C04+C01.compartments_that_are_not_junctions_are_not_in_the_graph", "len(G.NODES) == 0 and len(G.EDGES) == 0")], defined_props=["C04"])
